@@ -103,7 +103,27 @@ def gen_pipeline_case(rng, i, c03_bias=False, many_iters=False):
             mp.leaf_sum[leaf] = mp.leaf_sum[leaf] * 0.0
             mp.leaf_mean[leaf] = mp.leaf_mean[leaf] * 0.0
         label.append('empty-leaf')
+    flat = (i % 5 == 3)
+    flat_centroid = flat and len(leaves) > 2 and i % 10 == 3
+    if flat_centroid:
+        import math
+        lf = rng.choice(leaves)
+        v = rng.choice([0.1, 1.0 / 3.0, 7.3, math.log2(1.0 + 1.0e6 / 37.0)])
+        mp.leaf_mean[lf] = mp.leaf_mean[lf] * 0.0 + v
+        mp.leaf_sum[lf] = mp.leaf_mean[lf] * mp.leaf_n[lf]
+        label.append('flat-centroid')
     X = np.array(mp.X, dtype=float)
+    if flat and not flat_centroid:
+        # query rows constant and NON-zero over every marker: a low-depth
+        # cell with one count per gene (raw) / a flat log2CPM profile
+        import math
+        for r in range(X.shape[0]):
+            if rng.random() < 0.6:
+                X[r, :] = 1.0 if normalization == 'raw' else rng.choice(
+                    [0.1, 1.0 / 3.0, 7.3, math.log2(1.0 + 1.0e6 / 11.0)])
+                if rng.random() < 0.3:
+                    X[r, rng.randrange(X.shape[1])] += 2.0
+        label.append('flat-nonzero-cell')
     if normalization == 'log2CPM':
         qcol = {g: k for k, g in enumerate(mp.query_genes)}
         for r in range(X.shape[0]):
@@ -467,8 +487,7 @@ def analyse_run(ctx, sig, case, res, inputs, opts, do_votes=True,
                                       ' ~ tally_votes', found=False, model=m)
                             return True
                         sc = [eu.ssq_to_r(eu.frac(v)) for v in m['scores']]
-                        if not frag and max(
-                                abs(a - b) for a, b in zip(sc, fr)) > eu.REL:
+                        if max(abs(a - b) for a, b in zip(sc, fr)) > eu.REL:
                             ctx.disagreements_checked += 1
                             violation('correspondence/corrSsq',
                                       'correspondence CTM.Numeric.corrSsq ~ '
@@ -477,6 +496,15 @@ def analyse_run(ctx, sig, case, res, inputs, opts, do_votes=True,
                                       float=fr.tolist())
                             return True
                         rows.append([m['idx'], eu.rat(sc[m['idx']])])
+                cvals = [rec['avg_correlation']] + list(
+                    rec['runner_up_correlation'])
+                if any(v is None or v != v or abs(v) > 1 + eu.REL
+                       for v in cvals):
+                    violation('votes/corr-not-finite',
+                              'cell %r at node %r: correlations %r'
+                              % (cid, parent, cvals), cell=cid, node=parent,
+                              record=rec, genes=g, subsets=subsets)
+                    return True
                 if ambiguous:
                     # tie between children in some iteration: the record
                     # must still be one of the admissible outcomes
